@@ -17,16 +17,22 @@ from amaranth.sim import Simulator
 
 warnings.filterwarnings("ignore")
 
+EXTRA = 4
+
 
 class CombDesign(Elaboratable):  # noqa: F405
     def __init__(self, inputs: Sequence[Any], outputs: dict[str, tuple[Any, Optional[int]]]):
         self.inputs = [Value.cast(i) if not isinstance(i, Signal) else i for i in inputs]  # noqa: F405
         self.exprs = {}
         self.outs = {}
+        self.lens = {}
         for name, (expr, width) in outputs.items():
             v = Value.cast(expr)  # noqa: F405
-            w = len(v) if width is None else width
+            # observe the returned Value at its OWN width and EXTRA bits beyond (a signed result is sign-extended
+            # into them), so stray high bits / a wrong result width are visible; `width` forces a narrower view
+            w = len(v) + EXTRA if width is None else width
             self.exprs[name] = v
+            self.lens[name] = len(v)
             self.outs[name] = Signal(max(w, 1), name=f"out_{name}")  # noqa: F405
 
     def elaborate(self, platform):
@@ -49,6 +55,8 @@ def evaluate(design: CombDesign, vectors: Sequence[Sequence[int]]) -> list[dict[
     async def tb(ctx):
         for vec in order:
             for s, x in zip(design.inputs, vec):
+                if s.shape().signed and x >= 1 << (len(s) - 1):  # bit pattern -> signed value
+                    x -= 1 << len(s)
                 ctx.set(s, x)
             await ctx.delay(1e-6)
             uniq[vec] = {n: ctx.get(s) for n, s in zip(names, sigs)}
